@@ -40,6 +40,8 @@ type Env struct {
 	Ambient  uint64   `json:"ambient,omitempty"`   // seed of clock / global rand / pid / env answers
 	Prior    int      `json:"prior,omitempty"`     // build this many unrelated projects first (prior history)
 	Fresh    bool     `json:"fresh,omitempty"`     // execute in a fresh process
+	Conc     int      `json:"conc,omitempty"`      // build concurrently with this many other builds (seeded scheduler, isolating pool)
+	ConcSeed uint64   `json:"conc_seed,omitempty"`
 }
 
 type Step struct {
